@@ -26,11 +26,12 @@ struct Child {
     volatile int runs = 0, active = 0, done = 0, created = 0, join_started = 0, joined = 0, create_failed = 0;
     void* stack_ptr = nullptr; size_t stack_size = 0; volatile int stack_freed = 0;
     int home_vcpu = 0;
+    volatile int pins = 0;            // other families acting on this thread right now: its own parent does not join (= release) it meanwhile
 };
 std::vector<Child> kids;
 
-enum PK { P_CREATE, P_JOIN, P_INTR, P_MIGRATE, P_PAUSE };
-struct POp { int idx, k, child = -1, vcpu = 0, eno = EINTR; uint64_t us = 0; };
+enum PK { P_CREATE, P_JOIN, P_INTR, P_MIGRATE, P_PAUSE, P_MIGRATE_THEN_INTR };
+struct POp { int idx, k, child = -1, vcpu = 0, eno = EINTR; uint64_t us = 0; int foreign = -1; int a_id = -1, b_id = -1; };   // foreign: pick the target among all children (selector), not only the own ones
 std::vector<std::vector<POp>> scripts;
 phx::World W;
 int n_ops = 0;
@@ -81,6 +82,7 @@ void* child_entry(void* arg);
 
 void child_body(Child& c) {
     { sim::NoSched ns;
+      if (!c.th) c.th = photon::CURRENT;      // a stolen thread may get here before its creator has stored the handle
       if (c.runs++) HX_VIOL("ran-twice", "entry function of child %d started %d times", c.id, c.runs);
       if (++c.active != 1) HX_VIOL("two-vcpus", "child %d is executing on two vCPUs at once", c.id);
       sim::ev(0xC81D, c.id, 1); sim::note("child %d starts on vcpu-task %d", c.id, sim::task_id()); }
@@ -131,7 +133,13 @@ void gen_plan() {
     if (hx::param("no_ws", 0)) ws = 0;
     for (int v = 0; v < W.nvcpu; v++)
         W.vcpu_flags.push_back(ws == 0 ? 0 : ws == 1 ? (VCPU_ENABLE_ACTIVE_WORK_STEALING | VCPU_ENABLE_PASSIVE_WORK_STEALING) : sim::rnd(4));
+    bool choreo = W.nvcpu >= 3 && ws != 0 && sim::rnd(4) == 0 && !hx::param("no_choreo", 0);
     int nparents = 1 + sim::rnd(4);
+    if (choreo) {
+        // vCPU 1 can be stolen from, vCPU 2 steals whenever it runs out of work, vCPU 0 directs
+        W.vcpu_flags[1] |= VCPU_ENABLE_PASSIVE_WORK_STEALING; W.vcpu_flags[2] |= VCPU_ENABLE_ACTIVE_WORK_STEALING;
+        nparents += 2;
+    }
     scripts.resize(nparents);
     fail_at = sim::rnd(8) == 0 ? 1 + (int)sim::rnd(12) : -1;
     // a failing stack allocation is only injected where the caller is specified to handle it: plain thread_create()
@@ -150,15 +158,37 @@ void gen_plan() {
         int n = sim::rnd(6);
         for (int i = 0; i < n; i++) {
             CStep s; int r = sim::rnd(10);
-            if (r < 3) { s.k = C_YIELD; if (c.stealable && hx::param("stealable_no_switch", 0)) s.k = C_SLEEP, s.us = 20; } else if (r < 7) { s.k = C_SLEEP; s.us = T_US[sim::rnd(7)]; }
-            else if (r < 9) { s.k = C_MIGRATE_SELF; s.vcpu = sim::rnd(W.nvcpu); if (c.stealable && hx::param("stealable_no_switch", 0)) s.k = C_SLEEP, s.us = 20; }
+            if (r < 3) { s.k = C_YIELD; if (c.stealable && (choreo || hx::param("stealable_no_switch", 0))) s.k = C_SLEEP, s.us = 20; } else if (r < 7) { s.k = C_SLEEP; s.us = T_US[sim::rnd(7)]; }
+            else if (r < 9) { s.k = C_MIGRATE_SELF; s.vcpu = sim::rnd(W.nvcpu); if (c.stealable && (choreo || hx::param("stealable_no_switch", 0))) s.k = C_SLEEP, s.us = 20; }
             else { s.k = C_EXIT; }
             c.steps.push_back(s);
         }
         kids.push_back(c);
         return c.id;
     };
-    for (int p = 0; p < nparents; p++) {
+    int first_random = 0;
+    if (choreo) {
+        // parent 0 (vCPU 0): a stealable sleeper is sent to vCPU 1; later a second stealable thread is pushed there and,
+        // right behind it, the sleeper is interrupted: both sit in vCPU 1's standby queue when vCPU 2 looks for work
+        auto mk = [&](std::vector<CStep> steps) { Child c; c.id = (int)kids.size(); c.parent = 0; c.how = 0; c.joinable = true; c.stealable = true; c.steps = steps; kids.push_back(c); return c.id; };
+        CStep sl; sl.k = C_SLEEP; sl.us = 500 + sim::rnd(3000); CStep s2; s2.k = C_SLEEP; s2.us = T_US[sim::rnd(7)]; CStep y; y.k = C_YIELD;
+        CStep s1; s1.k = C_SLEEP; s1.us = 1; (void)y;
+        int S = mk({sl, s2}), M = mk({s1, s2, s1});     // (no yields: runs with stealable threads that yield are attributed to the open finding)
+        auto op = [&](int k, int child, int vcpu, uint64_t us) { POp o; o.idx = n_ops++; o.k = k; o.child = child; o.vcpu = vcpu; o.us = us; return o; };
+        auto& sc = scripts[0];
+        sc.push_back(op(P_CREATE, S, 0, 0)); sc.push_back(op(P_MIGRATE, S, 1, 0));
+        sc.push_back(op(P_CREATE, M, 0, 0)); sc.push_back(op(P_PAUSE, -1, 0, 50 + sim::rnd(300)));
+        POp mi = op(P_MIGRATE_THEN_INTR, S, 1, 0); mi.foreign = 0; mi.a_id = M; mi.b_id = S; sc.push_back(mi);
+        sc.push_back(op(P_PAUSE, -1, 0, sim::rnd(200)));
+        sc.push_back(op(P_JOIN, M, 0, 0)); sc.push_back(op(P_JOIN, S, 0, 0));
+        W.add(0, [](int) { run_parent(0); });
+        // parent 1 (vCPU 2): wakes up again and again, and every time it goes back to sleep its vCPU looks for work to steal
+        int nt = 10 + sim::rnd(40);
+        for (int i = 0; i < nt; i++) scripts[1].push_back(op(P_PAUSE, -1, 0, T_US[1 + sim::rnd(3)]));
+        W.add(2, [](int) { run_parent(1); });
+        first_random = 2;
+    }
+    for (int p = first_random; p < nparents; p++) {
         std::vector<int> mine;
         int n = 2 + sim::rnd(10);
         for (int i = 0; i < n; i++) {
@@ -173,8 +203,9 @@ void gen_plan() {
                     auto& st = kids[o.child].steps; st.insert(st.begin() + sim::rnd(st.size() + 1), s);
                 }
             } else if (r < 6) { o.k = P_JOIN; o.child = mine[sim::rnd(mine.size())]; }
-            else if (r < 7) { o.k = P_INTR; o.child = mine[sim::rnd(mine.size())]; }
-            else if (r < 8) { o.k = P_MIGRATE; o.child = mine[sim::rnd(mine.size())]; o.vcpu = sim::rnd(W.nvcpu); }
+            else if (r < 7) { o.k = P_INTR; o.child = mine[sim::rnd(mine.size())]; if (sim::rnd(2)) o.foreign = sim::rnd(1000); }
+            else if (r < 8) { o.k = P_MIGRATE; o.child = mine[sim::rnd(mine.size())]; o.vcpu = sim::rnd(W.nvcpu); if (sim::rnd(2)) o.foreign = sim::rnd(1000); }
+            else if (r < 9 && W.nvcpu > 1 && sim::rnd(2)) { o.k = P_MIGRATE_THEN_INTR; o.child = mine[sim::rnd(mine.size())]; o.vcpu = sim::rnd(W.nvcpu); o.foreign = sim::rnd(1000); }
             else { o.k = P_PAUSE; o.us = sim::rnd(3) ? T_US[sim::rnd(7)] : 0; }
             scripts[p].push_back(o);
         }
@@ -182,11 +213,27 @@ void gen_plan() {
         for (int c : mine) if (kids[c].joinable) { POp o; o.idx = n_ops++; o.k = P_JOIN; o.child = c; scripts[p].push_back(o); }
         W.add(sim::rnd(W.nvcpu), [p](int) { run_parent(p); });
     }
+    // interrupts aimed at the parents themselves: they may land while a parent sits in thread_join(), in a sleep, or anywhere
+    if (sim::rnd(3) == 0 && !hx::param("no_parent_interrupts", 0)) {
+        int n = 1 + sim::rnd(8), np = nparents;
+        std::vector<std::pair<int, uint64_t>> plan;
+        for (int i = 0; i < n; i++) plan.push_back({(int)sim::rnd(np), T_US[sim::rnd(7)]});
+        W.add(sim::rnd(W.nvcpu), [plan](int) {
+            for (auto& pr : plan) {
+                thread_usleep(pr.second);
+                phx::ThreadRec& tg = W.threads[pr.first];
+                if (!tg.th || !tg.started || tg.done) continue;
+                thread_interrupt(tg.th, EINTR);
+                sim::probe("interrupt_to_parent");
+            }
+        });
+    }
 }
 
 void do_join(Child& c, int p, const POp& o) {
     if (!c.created || !c.joinable || c.join_started) return;
-    { sim::NoSched ns; c.join_started = 1; sim::note("parent %d joins child %d (done=%d)", p, c.id, c.done); if (!c.done) sim::probe("join_before_done"); }
+    for (;;) { { sim::NoSched ns; if (!c.pins) { c.join_started = 1; break; } } thread_yield(); }
+    { sim::NoSched ns; sim::note("parent %d joins child %d (done=%d)", p, c.id, c.done); if (!c.done) sim::probe("join_before_done"); }
     void* rv = nullptr;
     if (c.how == 3) pools[W.threads[p].vcpu]->join(c.ctl);
     else rv = thread_join(c.jh);
@@ -217,7 +264,7 @@ void run_parent(int p) {
             uint64_t flags = (c->stealable ? THREAD_ENABLE_WORK_STEALING : 0);
             if (c->how == 0) {
                 { sim::NoSched ns; fail_armed++; }
-                thread* th = thread_create(&child_entry, c, 128 * 1024, 0, flags | (c->joinable && sim::frnd(2) ? THREAD_JOINABLE : 0));
+                thread* th = thread_create(&child_entry, c, 128 * 1024, 0, flags | (c->joinable && (c->stealable || sim::frnd(2)) ? THREAD_JOINABLE : 0));     // (a stealable thread may run elsewhere at once: it must be born joinable)
                 { sim::NoSched ns; fail_armed--; }
                 if (!th) { sim::NoSched ns; c->create_failed = 1; c->done = 1; sim::probe("create_failed"); break; }
                 c->th = th;
@@ -235,16 +282,40 @@ void run_parent(int p) {
             sim::NoSched ns; c->created = 1; sim::ev(0xC8EA7E, c->id); sim::note("parent %d created child %d how=%d joinable=%d", p, c->id, c->how, (int)c->joinable);
             break; }
         case P_JOIN: { phx::Where w(me, "join", o.idx); do_join(*c, p, o); break; }
-        case P_INTR:
-            // only threads that are certainly alive: joinable and not yet joined
-            if (c->created && c->joinable && !c->join_started && c->how < 2) { thread_interrupt(c->th, o.eno); sim::probe("interrupted_child"); }
-            break;
-        case P_MIGRATE:
-            if (c->created && c->joinable && !c->join_started && c->how < 2 && W.vcpus[o.vcpu]) {
-                int r = thread_migrate(c->th, W.vcpus[o.vcpu]);
-                sim::NoSched ns; if (r == 0) sim::probe("migrated_other");
+        case P_MIGRATE_THEN_INTR: {
+            // one thread is pushed to another vCPU and, right behind it, a second thread (asleep there, with luck) is
+            // interrupted: both land in that vCPU's standby queue back to back
+            Child* a = nullptr; Child* b = nullptr;
+            {
+                sim::NoSched ns;
+                std::vector<Child*> cand;
+                for (auto& k : kids) if (k.created && k.joinable && !k.join_started && k.how < 2 && !k.create_failed) cand.push_back(&k);
+                if (cand.size() < 2) break;
+                a = cand[o.foreign % cand.size()]; b = cand[(o.foreign / 7 + 1 + o.foreign % cand.size()) % cand.size()];
+                if (o.a_id >= 0) { a = b = nullptr; for (auto k : cand) { if (k->id == o.a_id) a = k; if (k->id == o.b_id) b = k; } if (!a || !b) break; }
+                if (a == b) break;
+                a->pins++; b->pins++;
             }
-            break;
+            if (W.vcpus[o.vcpu]) { int r = thread_migrate(a->th, W.vcpus[o.vcpu]); if (r == 0) sim::probe("migrate_then_interrupt"); }
+            thread_interrupt(b->th, o.eno);
+            { sim::NoSched ns; a->pins--; b->pins--; }
+            break; }
+        case P_INTR:
+        case P_MIGRATE: {
+            // only threads that are certainly alive: joinable and not yet joined; a thread of another family (usually on
+            // another vCPU) is pinned for the duration of the call, so that its own parent does not join it meanwhile
+            Child* t = c; bool pinned = false;
+            if (o.foreign >= 0) {
+                sim::NoSched ns;
+                std::vector<Child*> cand;
+                for (auto& k : kids) if (k.created && k.joinable && !k.join_started && k.how < 2 && !k.create_failed) cand.push_back(&k);
+                if (cand.empty()) break;
+                t = cand[o.foreign % cand.size()]; t->pins++; pinned = true;
+            } else if (!(c->created && c->joinable && !c->join_started && c->how < 2)) break;
+            if (o.k == P_INTR) { thread_interrupt(t->th, o.eno); sim::probe(pinned ? "interrupted_thread_of_other_family" : "interrupted_child"); }
+            else if (W.vcpus[o.vcpu]) { int r = thread_migrate(t->th, W.vcpus[o.vcpu]); sim::NoSched ns; if (r == 0) sim::probe(pinned ? "migrated_thread_of_other_family" : "migrated_other"); }
+            if (pinned) { sim::NoSched ns; t->pins--; }
+            break; }
         }
     }
     // a parent stays until its whole family has finished
